@@ -89,6 +89,9 @@ pub trait RawOps {
     fn r_fill(&mut self, _v: u32) -> vecdb::Result<usize> { unreachable!() }
     fn r_take_at(&mut self, _i: usize) -> vecdb::Result<Option<u32>> { unreachable!() }
     fn r_collect_holed(&self) -> vecdb::Result<Vec<Option<u32>>> { unreachable!() }
+    fn r_reader_try_get(&self, _i: usize) -> Option<u32> { unreachable!() }
+    fn r_stored_scan(&self, _from: usize, _to: usize, _io: bool) -> Vec<u32> { unreachable!() }
+    fn r_has_overlay(&self) -> bool { false }
 }
 macro_rules! raw_impl {
     ($t:ty) => {
@@ -99,6 +102,11 @@ macro_rules! raw_impl {
             fn r_fill(&mut self, v: u32) -> vecdb::Result<usize> { self.fill_first_hole_or_push(v) }
             fn r_take_at(&mut self, i: usize) -> vecdb::Result<Option<u32>> { let r = self.create_reader(); self.take_at(i, &r) }
             fn r_collect_holed(&self) -> vecdb::Result<Vec<Option<u32>>> { self.collect_holed() }
+            fn r_reader_try_get(&self, i: usize) -> Option<u32> { self.reader().try_get(i) }
+            fn r_stored_scan(&self, from: usize, to: usize, io: bool) -> Vec<u32> {
+                if io { self.fold_stored_io(from, to, vec![], |mut a, x| { a.push(x); a }) } else { self.fold_stored_mmap(from, to, vec![], |mut a, x| { a.push(x); a }) }
+            }
+            fn r_has_overlay(&self) -> bool { !self.holes().is_empty() || !self.updated().is_empty() }
         }
     };
 }
@@ -123,6 +131,7 @@ pub struct World<V> {
     pub commits: Vec<Snap>,          // committed states S0..Sn (S0 = state before the first commit, if still in the window)
     pub baseline: Option<Snap>,      // state the first change record of this session is a delta against (import / reset time), if still meaningful
     pub dirty_since_commit: bool,
+    pub soft: Vec<(String, String)>,  // violations of clauses that are recorded findings: reported, but the history continues
     pub records: usize,              // change records of the live chain still on disk (<= retention)
     pub written_chain: (Vec<Snap>, usize),   // (commits, records) as of the last write: an in-memory rollback is lost by a re-import
     pub next_val: u32,
@@ -146,7 +155,7 @@ where
         let db = Database::open(&path).expect("open");
         let vec = if forced { V::forced_import_with(opts(&db, "v")) } else { V::import_with(opts(&db, "v")) }.expect("import");
         let e = Snap { items: vec![], stamp: 0 };
-        World { path, db: Some(db), vec: Some(vec), cur: e.clone(), written: e.clone(), written_holes_dirty: false, commits: vec![], baseline: Some(e.clone()), dirty_since_commit: false, records: 0, written_chain: (vec![], 0), next_val: 100, forced, per_page: 0 }
+        World { path, db: Some(db), vec: Some(vec), cur: e.clone(), written: e.clone(), written_holes_dirty: false, commits: vec![], baseline: Some(e.clone()), dirty_since_commit: false, soft: vec![], records: 0, written_chain: (vec![], 0), next_val: 100, forced, per_page: 0 }
     }
     fn v(&mut self) -> &mut V { self.vec.as_mut().unwrap() }
     fn fresh(&mut self) -> u32 { self.next_val += 1; self.next_val }
@@ -378,6 +387,102 @@ where
         Ok(())
     }
 
+    /// C08: every read path agrees with the reference contents restricted to the range; none panics.
+    pub fn check_reads(&self, soft: &mut Vec<(String, String)>) -> Result<(), (String, String)> {
+        let v = self.vec.as_ref().unwrap();
+        let items = &self.cur.items;
+        let len = items.len();
+        let has_holes = items.iter().any(|x| x.is_none());
+        let expanded = v.stored_len() > v.real_stored_len();
+        let ro = v.read_only_clone();
+        let boxed = v.read_only_boxed_clone();
+        let fail = |clause: &str, what: &str, from: usize, to: usize, got: &dyn std::fmt::Debug, exp: &dyn std::fmt::Debug| {
+            Err((clause.to_string(), format!("{what}({from},{to}) = {:?}, reference contents give {:?}", got, exp)))
+        };
+        for from in 0..=len + 1 {
+            for to in 0..=len + 1 {
+                let exp: Vec<u32> = if from.min(len) >= to.min(len) { vec![] } else { items[from.min(len)..to.min(len)].iter().filter_map(|x| *x).collect() };
+                let a = v.collect_range_at(from, to);
+                if a != exp { return fail("C08.range", "collect_range_at", from, to, &a, &exp); }
+                let b = v.fold_range_at(from, to, vec![], |mut acc: Vec<u32>, x| { acc.push(x); acc });
+                if b != exp { return fail("C08.range", "fold_range_at", from, to, &b, &exp); }
+                let c: Result<Vec<u32>, ()> = v.try_fold_range_at(from, to, vec![], |mut acc: Vec<u32>, x| { acc.push(x); Ok(acc) });
+                if c.as_ref().ok() != Some(&exp) { return fail("C08.range", "try_fold_range_at", from, to, &c, &exp); }
+                let mut d = vec![]; v.for_each_range_at(from, to, |x| d.push(x));
+                if d != exp { return fail("C08.range", "for_each_range_at", from, to, &d, &exp); }
+                let mut e = vec![]; v.read_into_at(from, to, &mut e);
+                if e != exp { return fail("C08.range", "read_into_at", from, to, &e, &exp); }
+                let mut f = vec![]; v.for_each_range_dyn_at(from, to, &mut |x| f.push(x));
+                if f != exp { return fail("C08.range", "for_each_range_dyn_at", from, to, &f, &exp); }
+                let g = v.collect_range_dyn(from, to);
+                if g != exp { return fail("C08.range", "collect_range_dyn", from, to, &g, &exp); }
+                // early exit of try_fold: stop after the first element
+                let h: Result<u32, u32> = v.try_fold_range_at(from, to, 0u32, |_acc, x| Err(x));
+                if h != exp.first().map(|x| Err(*x)).unwrap_or(Ok(0)) { return fail("C08.range", "try_fold_range_at(early exit)", from, to, &h, &exp.first()); }
+                if v.min_at(from, to) != exp.iter().copied().min() { return fail("C08.agg", "min_at", from, to, &v.min_at(from, to), &exp.iter().min()); }
+                if v.max_at(from, to) != exp.iter().copied().max() { return fail("C08.agg", "max_at", from, to, &v.max_at(from, to), &exp.iter().max()); }
+                let es = if exp.is_empty() { None } else { Some(exp.iter().sum::<u32>()) };
+                if v.sum_at(from, to) != es { return fail("C08.agg", "sum_at", from, to, &v.sum_at(from, to), &es); }
+                if v.max_dyn(from, to) != exp.iter().copied().max() { return fail("C08.agg", "max_dyn", from, to, &v.max_dyn(from, to), &exp.iter().max()); }
+                // read-only clones see the stored part and the shared length only: compare on the stored prefix when clean
+                let clean = self.cur == self.written && self.pushed_empty() && !(V::RAW && v.r_has_overlay());
+                if clean {
+                    let clause = if expanded { "C08.clone-expanded" } else { "C08.clone" };
+                    let r1 = ro.collect_range_at(from, to);
+                    if r1 != exp { if expanded { soft.push((clause.into(), format!("read_only_clone.collect_range_at({from},{to}) = {r1:?}, reference contents give {exp:?}"))); } else { return fail(clause, "read_only_clone.collect_range_at", from, to, &r1, &exp); } }
+                    let r2 = boxed.collect_range_dyn(from, to);
+                    if r2 != exp { if expanded { soft.push((clause.into(), format!("read_only_boxed_clone.collect_range_dyn({from},{to}) = {r2:?}"))); } else { return fail(clause, "read_only_boxed_clone.collect_range_dyn", from, to, &r2, &exp); } }
+                    if V::RAW && !has_holes {
+                        let m1 = v.r_stored_scan(from, to, false);
+                        if m1 != exp { return fail("C08.stored-scan", "fold_stored_mmap", from, to, &m1, &exp); }
+                        let m2 = v.r_stored_scan(from, to, true);
+                        if m2 != exp { return fail("C08.stored-scan", "fold_stored_io", from, to, &m2, &exp); }
+                    }
+                }
+            }
+        }
+        for i in 0..=len + 1 {
+            let exp = items.get(i).copied().flatten();
+            let a = v.collect_one_at(i);
+            if a != exp { return Err(("C08.point".into(), format!("collect_one_at({i}) = {a:?}, reference contents give {exp:?}"))); }
+            // cursor: positional reads; with deleted slots this is the recorded finding F7 (wrong element or panic)
+            let clause = if has_holes { "C08.cursor-holes" } else { "C08.cursor" };
+            let got = std::panic::catch_unwind(std::panic::AssertUnwindSafe(|| { let mut c = v.cursor(); c.get(i) }));
+            match got {
+                Ok(g) if g == exp => {}
+                Ok(g) => { let e = (clause.to_string(), format!("cursor().get({i}) = {g:?}, reference contents give {exp:?}")); if has_holes { soft.push(e); } else { return Err(e); } }
+                Err(_) => { let e = (clause.to_string(), format!("cursor().get({i}) panicked, reference contents give {exp:?}")); if has_holes { soft.push(e); } else { return Err(e); } }
+            }
+            if V::RAW && i < v.stored_len() {
+                let overlay = exp.is_none() || v.r_has_overlay();
+                let clause = if overlay { "C08.vecreader-overlay" } else { "C08.vecreader" };
+                let got = v.r_reader_try_get(i);
+                if got != exp { let e = (clause.to_string(), format!("reader().try_get({i}) = {got:?}, reference contents give {exp:?}")); if overlay { soft.push(e); } else { return Err(e); } }
+            }
+        }
+        // sorted reads: all ascending pairs (duplicates included)
+        let clause = if has_holes { "C08.sorted-holes" } else { "C08.sorted" };
+        for i in 0..=len { for j in i..=len {
+            let idx = [i, j];
+            let exp: Vec<u32> = idx.iter().filter_map(|&k| items.get(k).copied().flatten()).collect();
+            let got = std::panic::catch_unwind(std::panic::AssertUnwindSafe(|| v.read_sorted_at(&idx)));
+            match got {
+                Ok(g) if g == exp => {}
+                Ok(g) => { let e = (clause.to_string(), format!("read_sorted_at({idx:?}) = {g:?}, reference contents give {exp:?}")); if has_holes { soft.push(e); } else { return Err(e); } }
+                Err(_) => { let e = (clause.to_string(), format!("read_sorted_at({idx:?}) panicked")); if has_holes { soft.push(e); } else { return Err(e); } }
+            }
+        }}
+        // signed ranges
+        for (f, t) in [(Some(-1i64), None), (Some(-2), Some(-1)), (None, Some(-1)), (Some(0), Some(len as i64 + 3)), (Some(-(len as i64) - 2), None)] {
+            let conv = |x: i64| -> usize { if x >= 0 { (x as usize).min(len) } else { len.saturating_sub((-x) as usize) } };
+            let (a, b) = (f.map(conv).unwrap_or(0), t.map(conv).unwrap_or(len));
+            let exp: Vec<u32> = if a >= b { vec![] } else { items[a..b].iter().filter_map(|x| *x).collect() };
+            let got = v.collect_signed_range(f, t);
+            if got != exp { return Err(("C08.signed".into(), format!("collect_signed_range({f:?},{t:?}) = {got:?}, reference contents give {exp:?}"))); }
+        }
+        Ok(())
+    }
+
     pub fn check_all(&mut self) -> Result<u64, (String, String)> {
         let cur = self.cur.clone();
         let v = self.vec.as_ref().unwrap();
@@ -393,6 +498,12 @@ where
         }
         if !V::RAW && !Self::is_raw_eager() && cur == self.written && self.pushed_empty() {
             if let Err(e) = self.check_pages() { return Err(e); }
+        }
+        if std::env::var("RAC_READS").is_ok() {
+            let mut soft = vec![];
+            let r = self.check_reads(&mut soft);
+            self.soft.extend(soft);
+            if let Err(e) = r { return Err(e); }
         }
         let v = self.vec.as_ref().unwrap();
         let got = v.collect();
@@ -414,8 +525,15 @@ pub fn page_alphabet() -> Vec<Op> {
          Op::Write, Op::Commit, Op::Rollback, Op::Reimport, Op::Reset]
 }
 
+pub fn chain_alphabet(raw: bool) -> Vec<Op> {
+    let mut v = vec![Op::Push(1), Op::Truncate(Sel::Last), Op::Truncate(Sel::Mid), Op::Commit, Op::Commit, Op::Rollback, Op::Rollback, Op::RollbackBefore(1), Op::Reimport];
+    if raw { v.extend([Op::Update(Sel::First), Op::Update(Sel::Last), Op::Delete(Sel::First), Op::FillHole]); }
+    v
+}
+
 pub fn alphabet(raw: bool, thorough: bool) -> Vec<Op> {
     if std::env::var("RAC_PAGE_ALPHABET").is_ok() { return page_alphabet(); }
+    if std::env::var("RAC_CHAIN_ALPHABET").is_ok() { return chain_alphabet(raw); }
     let mut v = vec![Op::Push(1), Op::Push(3), Op::Truncate(Sel::First), Op::Truncate(Sel::Mid), Op::Truncate(Sel::Last), Op::Truncate(Sel::Past),
         Op::CheckedPushBad, Op::Write, Op::Commit, Op::Rollback, Op::RollbackBefore(1), Op::RollbackBefore(2), Op::Reset, Op::Reimport];
     if thorough { v.push(Op::Flush); v.push(Op::Reopen); v.push(Op::RollbackBefore(0)); }
@@ -452,6 +570,12 @@ pub fn run_history<V: StoredVec<I = usize, T = u32> + RawOps>(ops: &[Op], rep: &
             Ok(Err((c, d))) => return Err(Failure { clause: c, detail: d, history: hist }),
             Ok(Ok(h)) => { rep.distinct.insert(h); }
         }
+        for (c, d) in w.soft.drain(..) {
+            match rep.failures.iter_mut().find(|f| f.clause == c) {
+                Some(f) => { if hist.len() < f.history.len() { f.history = hist.clone(); f.detail = d; } }
+                None => rep.failures.push(Failure { clause: c, detail: d, history: hist.clone() }),
+            }
+        }
     }
     Ok(true)
 }
@@ -461,7 +585,9 @@ pub fn run_format<V: StoredVec<I = usize, T = u32> + RawOps>(name: &str, depth: 
     let n = alpha.len();
     let mut total = Report { suite: format!("vec:{name}"), ..Default::default() };
     if std::env::var("RAC_PAGE_ALPHABET").is_ok() { total.suite = format!("vecpages:{name}"); }
-    total.bound = if std::env::var("RAC_PAGE_ALPHABET").is_ok() { format!("format {name}, page-crossing alphabet: exhaustive over all histories of <= {depth} operations from {{push 1|4095|4096|4097 (4096 values per page), truncate first|mid|last, write, commit, rollback, re-import, reset}}, page index decoded from disk and checked after every write; plus seeded random histories of length {random_depth} for {random_secs}s") } else { format!("format {name}: exhaustive over all histories of <= {depth} operations from an alphabet of {n} (push 1|3, truncate first|mid|last|past, write, commit, rollback, rollback_before 1|2, reset, re-import, refused checked push{}), retention {RETENTION}, from a fresh vector; plus seeded random histories of length {random_depth} for {random_secs}s",
+    if std::env::var("RAC_READS").is_ok() { total.suite = format!("vecreads:{name}"); }
+    if std::env::var("RAC_CHAIN_ALPHABET").is_ok() { total.suite = format!("vecchain:{name}"); }
+    total.bound = if std::env::var("RAC_CHAIN_ALPHABET").is_ok() { format!("format {name}, commit-chain alphabet: exhaustive over all histories of <= {depth} operations from {{push 1, truncate mid|last, commit, rollback, rollback_before 1, re-import{}}} (commit and rollback weighted double in the random part), retention {RETENTION}; plus seeded random histories of length {random_depth} for {random_secs}s", if V::RAW { ", update first|last, delete first, fill hole" } else { "" }) } else if std::env::var("RAC_PAGE_ALPHABET").is_ok() { format!("format {name}, page-crossing alphabet: exhaustive over all histories of <= {depth} operations from {{push 1|4095|4096|4097 (4096 values per page), truncate first|mid|last, write, commit, rollback, re-import, reset}}, page index decoded from disk and checked after every write; plus seeded random histories of length {random_depth} for {random_secs}s") } else { format!("format {name}: exhaustive over all histories of <= {depth} operations from an alphabet of {n} (push 1|3, truncate first|mid|last|past, write, commit, rollback, rollback_before 1|2, reset, re-import, refused checked push{}), retention {RETENTION}, from a fresh vector; plus seeded random histories of length {random_depth} for {random_secs}s",
         if V::RAW { ", update first|last|len, delete first|mid, fill hole, take mid" } else { "" }) };
     total.exhaustive = true;
     let results: Vec<Report> = std::thread::scope(|sc| {
